@@ -222,7 +222,7 @@ def struct_deltas(t):
     d = {}
     chain = []
     while t[0] == "upd":
-        chain.append((tuple(t[2]), t[3]))
+        chain.append((tuple(t[2]), _as_compound(tuple(t[2]), t[3])))
         t = t[1]
     if t[0] == "phi":
         # updates applied after a merge: distribute
@@ -236,6 +236,20 @@ def struct_deltas(t):
     for path, val in reversed(chain):
         d[path] = val
     return [(t, d)]
+
+
+_COMPOUND = {"std::ops::Add::add": "std::ops::AddAssign::add_assign", "std::ops::Sub::sub": "std::ops::SubAssign::sub_assign"}
+
+
+def _as_compound(path, val):
+    """`x.f = x.f + y` is the same update as `x.f += y`: present both as the compound form."""
+    if val[0] == "call" and val[1] in _COMPOUND and len(val[2]) == 2:
+        a, b = val[2]
+        for prev, other in ((a, b), (b, a)) if val[1].endswith("add") else ((a, b),):
+            alts = prev[1] if prev[0] == "phi" else (prev,)
+            if any(field_path(a)[1][-len(path):] == list(path) for a in alts):
+                return ("mut", prev, _COMPOUND[val[1]], (other,))
+    return val
 
 
 def delta_op(val, field_base=None):
